@@ -93,7 +93,7 @@ def rule_double_checked_creation(ctx, f, rid):
     # g.result -> (cloned) -> switch on discriminant
     for bi in b.reach(g.bb):
         si = b.switch_info(bi)
-        if si and si[0][0] == "discr":
+        if si and si[0][0] == "discr" and not g.matches("HashMap::entry"):
             src = peel(si[0][1], transparent=["Option::cloned", "Option::copied", "Option::map"])
             if src[0] == "call" and src[3] == g.bb:
                 some_t = [t for v, t in si[1] if v == 1]
@@ -105,6 +105,15 @@ def rule_double_checked_creation(ctx, f, rid):
                 none_t = [t for v, t in si[1] if v == 0] or [si[2]]
                 hit_ok = hit_ok and bc.bb in b.reach(none_t[0])
                 break
+        if si and si[0][0] == "discr" and g.matches("HashMap::entry") and peel(si[0][1], transparent=[]) == g.result_term():
+            # match children.entry(hash) { Occupied(e) => existing, Vacant(e) => build + insert }
+            arms = [t for v, t in si[1]] + ([si[2]] if b.blocks[si[2]]["term"]["k"] != "unreachable" else [])
+            vac = [t for t in arms if bc.bb in b.reach(t) or t == bc.bb]
+            occ = [t for t in arms if t not in vac]
+            if len(vac) == 1 and len(occ) == 1:
+                r = b.reach(occ[0])
+                hit_ok = bc.bb not in r and ic.bb not in r and any(c.bb in r for c in b.calls_to(["OccupiedEntry::get", "OccupiedEntry::into_mut", "OccupiedEntry::get_mut"]))
+            break
         be = b.bool_edges(bi)
         if be and is_call(be[0], ["HashMap::contains_key"]) and be[0][3] == g.bb:
             r = b.reach(be[1])
@@ -246,6 +255,14 @@ def rule_single_critical_section(ctx, f, rid):
             ok = len(rm) == 1 and len(hs) == 1 and peel(rm[0].args[1]) == hs[0].result_term() and peel(hs[0].args[1]) == P2
             ctx.ob(rid, m + "|removes-hashed-key", ok, "%s must remove exactly the key hashed from the caller's labels" % m, site=rm[0].span if rm else w.span)
         if m == "collect":
+            if not b.calls_to("Vec::push"):
+                # `children.values().map(|c| c.metric()).collect()` is the same loop: look at it in its explicit form
+                from pvrules import inline
+                b2 = inline.desugar_map_collect(f, b)
+                if b2 is not None:
+                    b = b2
+                    locks2 = [c for c in b.calls() if c.matches(["RwLock::read", "RwLock::write"])]
+                    w = locks2[0] if len(locks2) == 1 else w
             rel = guard_release_blocks(b, w)
             pushes = b.calls_to("Vec::push")
             mets = b.calls_to(["Metric::metric"])
